@@ -88,6 +88,7 @@ type Sched struct {
 
 	wakeCh   chan struct{}
 	draining atomic.Bool
+	stopped  atomic.Bool
 	begun    bool
 	last     *G
 	clk      clock
@@ -242,6 +243,17 @@ func (s *Sched) Held() []unsafe.Pointer {
 	return append([]unsafe.Pointer(nil), g.held...)
 }
 
+// AllHeld returns every mutex currently held by any goroutine.
+func (s *Sched) AllHeld() []unsafe.Pointer {
+	s.mu.Lock()
+	defer s.mu.Unlock()
+	out := make([]unsafe.Pointer, 0, len(s.owner))
+	for m := range s.owner {
+		out = append(out, m)
+	}
+	return out
+}
+
 // CurID returns the logical id of the calling goroutine.
 func (s *Sched) CurID() string { return s.cur().ID }
 
@@ -279,6 +291,12 @@ func (s *Sched) Env(name string) {
 func (s *Sched) Yield(name string) {
 	s.Gate(&shim.Op{Kind: shim.OpYield, Name: name, Site: "yield:" + name})
 }
+
+// SetRand sets the value returned for the library's math/rand.Float64 calls (backoff jitter).
+func (s *Sched) SetRand(v float64) { s.randVal = v }
+
+// Stop ends the execution at the next quiescent point (the scenario has seen all it needs).
+func (s *Sched) Stop() { s.stopped.Store(true) }
 
 // Begin marks the start of the explored part of the execution.
 func (s *Sched) Begin() { s.begun = true }
@@ -572,6 +590,10 @@ func (s *Sched) loop() {
 		}
 		if s.x.Diverged != "" {
 			s.x.Terminal = "diverged"
+			return
+		}
+		if s.stopped.Load() {
+			s.x.Terminal = "stopped"
 			return
 		}
 		s.x.Steps++
